@@ -6,12 +6,24 @@ def run(tier, seed):
   from harness import svcmon
   return svcrun.run_service_check(
       'C07', tier, seed,
-      rule=('the same RPC sequence (incl. DeleteStudy + re-creation under the same name, sibling studies whose names are prefixes of '
+      rule=('the structure of every RAM datastore method (error wrapping, existence checks, locking, copying) is regenerated from ram_datastore.py and compared with the model\'s primitives in the kernel; '
+            'the same RPC sequence (incl. DeleteStudy + re-creation under the same name, sibling studies whose names are prefixes of '
             'each other, metadata updates naming missing trials, early-stopping checks) replayed on RAM, in-memory SQLite and an '
             'SQLite file; responses, error classes and stored data compared pairwise after every step and with the model; '
             'non-trivial = at least 3 successful calls'),
       monitors=[], backends=('ram', 'sqlmem', 'sqlfile'), compare_backends=True,
-      profile={'delete_study': 0.07, 'owner2': 0.15, 'warmup': 0.6}, nseq_quick=50, nseq_thorough=500, extra=long_studies)
+      profile={'delete_study': 0.07, 'owner2': 0.15, 'warmup': 0.6}, nseq_quick=50, nseq_thorough=500, extra=long_studies, pre=regenerate_ram_shapes,
+      trusted_extra=['harness/translate/ramshape.py (Python-ast translator of the 20 NestedDictRAMDataStore methods into rows of structural facts, fail-closed)'])
+
+
+def regenerate_ram_shapes():
+  from harness import common as C
+  try:
+    from harness.translate import ramshape
+    C.write_gen('Gen/RamShapes.v', ramshape.translate(C.REPO))
+    return None
+  except Exception as e:  # pylint: disable=broad-except
+    return 'translator harness/translate/ramshape.py refused ram_datastore.py: %r' % (e,)
 
 
 def long_studies(rep, tier, seed, known, r):
